@@ -11,7 +11,7 @@ ID = "C07"
 OPT_QUICK_ALL = True      # every partition also in a child interpreter started with -O
 LEVEL = "model_checking"
 TECHNIQUE = "exhaustive enumeration of (status byte x sense x transport x call path x raw flag) at depth 1 and of all status/command histories up to a depth bound on real device objects over stand-in bindings, judged by a status->outcome reference model"
-RULE = ("depth 1: all 256 status bytes x {SG_IO, iSCSI} x {device.execute, SCSI.execute} x raw-sense {off,on} x (READ(10) x 5 sense buffers + 7 other commands incl. ATA PASS-THROUGH with/without CK_COND), and all 256 "
+RULE = ("depth 1: all 256 status bytes x {SG_IO, iSCSI} x {device.execute, SCSI.execute} x raw-sense {off,on} x (READ(10) x 9 sense buffers (incl. fixed-format sense shorter than the buffer it arrives in: ADDITIONAL SENSE LENGTH 6 / 10 / 16 in 18 / 32 / 252 bytes) + 7 other commands incl. ATA PASS-THROUGH with/without CK_COND), and all 256 "
         "status bytes (over iSCSI also 12 status values beyond one byte incl. libiscsi's REDIRECT / CANCELLED / ERROR / TIMEOUT pseudo-statuses) x both transports x each of the 38 facade methods on every command set offering it x 2 sense buffers, and CHECK CONDITION x 6 sense keys x 6 additional sense codes (thorough: 16 x 12) x fixed / descriptor format through every facade method; an asynchronous KeyboardInterrupt injected at every source line the library executes during 9 facade calls (incl. both ATA PASS-THROUGH forms and a re-attach), on both transports: passed on as it is, and the next GOOD / CHECK CONDITION on the same objects behave as ever; the same command inside `with device:` / `with SCSI(device):` blocks x 8 statuses x 6 values handed back by the binding's disconnect (the error must leave the block); histories: all "
         "sequences up to length L (3 quick, 4 thorough; steps may also be a transport I/O error, ENODEV, a re-plug with ENODEV, a KeyboardInterrupt arriving inside the binding - passed on as it is -, or the facade re-pointed by call to another device whose INQUIRY is answered GOOD / CHECK CONDITION / BUSY) over {GOOD, CHECK CONDITION, BUSY, RESERVATION CONFLICT, 7Fh} x {TEST UNIT READY, "
         "READ(10), INQUIRY} on one device per transport, every step judged and every GOOD step's result compared with the target, once with a fresh facade call per step and once with one command object per kind submitted again at every step (retry loop); each CHECK CONDITION step carries its own distinct sense data; later steps also range over ATA PASS-THROUGH(16) facade calls (GOOD / CHECK CONDITION / transport I/O error), a refused ATA call (no block size) and transport errors during TEST UNIT READY (EIO, ENODEV, ENODEV while the node is being replaced). "
@@ -32,6 +32,22 @@ SENSES = {
     # CHECK CONDITION without autosense data (None over iSCSI, empty over SG_IO): only "some exception, one submission" is required
     "nosense": (None, None),
 }
+
+
+def _padded_fixed(key, asc, ascq, asl, buflen):
+    """fixed-format sense whose ADDITIONAL SENSE LENGTH says the data end at byte asl+7, handed over in a longer zero-padded buffer
+    (the transport gives the whole sense buffer)"""
+    b = bytearray(buflen)
+    b[0], b[2], b[7], b[12], b[13] = 0x70, key, asl, asc, ascq
+    return bytes(b)
+
+
+# (ASL 6: the 14-byte sense of small targets and bridges, ends exactly on ASCQ; ASL 10: the usual 18 bytes)
+SENSES["fixed14in32"] = (_padded_fixed(2, 0x04, 0x01, 6, 32), (2, 0x04, 0x01))
+SENSES["fixed14in18"] = (_padded_fixed(6, 0x29, 0x02, 6, 18), (6, 0x29, 0x02))
+SENSES["fixed18in32"] = (_padded_fixed(5, 0x24, 0x03, 10, 32), (5, 0x24, 0x03))
+SENSES["fixed24in252"] = (_padded_fixed(3, 0x11, 0x04, 16, 252), (3, 0x11, 0x04))
+DIRECT_SENSES = ["fixed18", "desc8", "fixed_nosense", "deferred", "long252", "nosense", "fixed14in32", "fixed14in18", "fixed18in32", "fixed24in252"]
 
 
 def bounds(tier):
@@ -465,7 +481,7 @@ def run_partition(part, tier, seed):
         tr = part[1]
         for path in ("dev", "scsi"):
             for status in range(256):
-                for sk in SENSES:
+                for sk in DIRECT_SENSES:
                     for raw in (False, True):
                         do(["direct", tr, path, status, sk, raw], status != 0)
                         acc.traces += 1
